@@ -847,7 +847,10 @@ func (x *Engine) useLemma(st *State, old *State, u *Clause, env map[string]Val, 
 	lenv := map[string]Val{}
 	for i, a := range args {
 		ev := &Eval{x: x, st: st, old: old, env: env, pkg: pkg}
-		v := x.safeEval(ev, &Clause{Expr: a, Text: u.Text, File: u.File, Line: u.Line})
+		v, okArg := x.trySafeEval(ev, &Clause{Expr: a, Text: u.Text, File: u.File, Line: u.Line, Label: "use " + u.Label})
+		if !okArg {
+			return // the lemma cannot be instantiated for this code: nothing is assumed
+		}
 		v.T = x.name("la_"+mangle(lm.Params[i]), ev.sortOf(v), v.T)
 		lenv[lm.Params[i]] = Val{T: v.T, Sort: ev.sortOf(v)}
 	}
